@@ -288,6 +288,8 @@ def check_cell_store(c, f, st, tg):
         c.check(ok and clamp, f, st, 'the %s index is <clamped to [1, %s]> - 1' % (what, bound), witness=norm(idx), kind='alg', tag='cell-%s:%s' % (what, f.qual))
     v = st.value
     singles = False
+    if isinstance(v, ast.Subscript) and is_const(v.slice, 0):
+        singles = True          # <text>[0] stored directly
     if isinstance(v, ast.Name):
         defs = [n for n in g.nodes if n.kind == 'stmt' and isinstance(n.ast, ast.Assign) and v.id in assigned_names(n.ast)
                 and isinstance(n.ast.value, ast.Subscript) and is_const(n.ast.value.slice, 0)]
